@@ -153,6 +153,21 @@ def deep_snapshot(obj, seen=None, depth=0):
     return ("obj", id(obj))
 
 
+class _AllocMark:
+    """Native reading of `alloc_at_entry()`: `x < mark` = x existed at entry (reachable from the inputs then, or None);
+    `x >= mark` = x was created by the call.  Comparisons reach this class through the reflected operators."""
+
+    def __init__(self, seen):
+        self.seen = seen
+        self.keep = []
+
+    def __gt__(self, other):  # other < mark
+        return other is None or id(other) in self.seen
+
+    def __le__(self, other):  # other >= mark
+        return not self.__gt__(other)
+
+
 def snapshots_agree(a, b, relax):
     """deep_snapshot equality, relaxed by field names that may differ and by "lists-grow" (append-only lists)."""
     if not relax:
@@ -304,6 +319,11 @@ def check_native(c: Contract, inputs: dict, fn=None) -> NativeOutcome:
                     env[f"{name}@{id(code)}"] = _Undefined(e)
             prepared[cl] = (pre, code)
         snap0 = deep_snapshot(inputs) if any("heap_unchanged" in cl for cl in all_clauses) else None
+        if any("alloc_at_entry" in cl for cl in all_clauses):
+            seen0 = {}
+            deep_snapshot(inputs, seen0)
+            mark = _AllocMark(seen0)
+            env["alloc_at_entry"] = lambda: mark
     except Exception as e:
         out.pre_ok = False
         return out
